@@ -9,6 +9,7 @@ import (
 	"regexp"
 	"runtime"
 	"strings"
+	"syscall"
 	"time"
 
 	shared "github.com/aquilax/hranoprovod-cli/v3"
@@ -51,6 +52,7 @@ type c18Input struct {
 	file    string // non-empty: ParseFile on this path
 	partial bool
 	comment byte // parser.Config.CommentChar (0: the default '#')
+	fifo    bool // ParseFile on a named pipe fed with text (a path that stats as size 0 but has content)
 }
 
 func (in c18Input) config() parser.Config {
@@ -119,8 +121,26 @@ func c18Run(c *core.Ctx, in c18Input, policy string, r *rand.Rand, slowAfter tim
 	readerJitter := r.Intn(3)
 	consumerJitter := r.Intn(4)
 	readerSeed := r.Int63()
+	fifoPath := ""
+	if in.fifo {
+		fifoPath = filepath.Join(c.Work, fmt.Sprintf("fifo.%d.%d", os.Getpid(), r.Int63()))
+		if err := syscall.Mkfifo(fifoPath, 0o600); err != nil {
+			return nil, "", "watchdog"
+		}
+		defer os.Remove(fifoPath)
+		go func() {
+			if w, err := os.OpenFile(fifoPath, os.O_WRONLY, 0); err == nil {
+				w.Write([]byte(in.text))
+				w.Close()
+			}
+		}()
+	}
 	go func() {
 		defer close(exited)
+		if in.fifo {
+			p.ParseFile(fifoPath)
+			return
+		}
 		if in.file != "" {
 			p.ParseFile(in.file)
 			return
@@ -289,6 +309,24 @@ func c18Inputs(c *core.Ctx, n int) []c18Input {
 			}
 		}
 	}
+	// paths whose size is reported as 0 although they have content: named pipes and /proc files
+	for i := 0; i < n/25+2; i++ {
+		r := c.Rng("fifo", i)
+		book, log := c10Files(r, true)
+		text := book
+		if i%2 == 0 {
+			text = log
+		}
+		if i%5 == 0 {
+			text += "  broken line\n"
+		}
+		ins = append(ins, c18Input{class: "fifo", text: text, limit: -1, fifo: true})
+	}
+	for _, pf := range []string{"/proc/version", "/proc/filesystems"} { // content that does not change between two reads
+		if _, err := os.Stat(pf); err == nil {
+			ins = append(ins, c18Input{class: "proc-file", file: pf})
+		}
+	}
 	// a third of the inputs use another comment character (library configuration): the same text
 	// with '#' replaced, or left as it is (then '#' lines are data)
 	for i := range ins {
@@ -312,7 +350,7 @@ func c18Inputs(c *core.Ctx, n int) []c18Input {
 }
 
 func runC18(c *core.Ctx) {
-	c.SetRule("runs: inputs {valid, 1-4 malformed lines, empty/comment-only, reader failing at a random offset, 66 kB line, ParseFile on a regular file / missing path / directory} x parser configuration {default comment character, two others} x consumer policy {A: documented loop, stop at first error or Done; B: drain until Done} x PRNG-chosen jitter (consumer: none/Gosched/50-500us sleep/busy loop before each receive; reader: none/Gosched/sleeps between chunks, chunk sizes 1..whole) x GOMAXPROCS {1,2,16}; harness built with the race detector. Oracle: trace at the consumer boundary == callback parser's nodes before its first error, then that error (A) / the error once, Done, producer exit (B). At every receive the monitor records which side reached the rendezvous first (p: the producer was already blocked in its send, c: the consumer had to wait); the jitter/arrival pattern is part of the case identity and the totals of both arrival orders are in the evidence. Non-trivial = run with >= 1 node or an error; distinct = hash(input, policy, jitter and arrival-order pattern).")
+	c.SetRule("runs: inputs {valid, 1-4 malformed lines, empty/comment-only, reader failing at a random offset, 66 kB line, ParseFile on a regular file / missing path / directory / named pipe / proc file} x parser configuration {default comment character, two others} x consumer policy {A: documented loop, stop at first error or Done; B: drain until Done} x PRNG-chosen jitter (consumer: none/Gosched/50-500us sleep/busy loop before each receive; reader: none/Gosched/sleeps between chunks, chunk sizes 1..whole) x GOMAXPROCS {1,2,16}; harness built with the race detector. Oracle: trace at the consumer boundary == callback parser's nodes before its first error, then that error (A) / the error once, Done, producer exit (B). At every receive the monitor records which side reached the rendezvous first (p: the producer was already blocked in its send, c: the consumer had to wait); the jitter/arrival pattern is part of the case identity and the totals of both arrival orders are in the evidence. Non-trivial = run with >= 1 node or an error; distinct = hash(input, policy, jitter and arrival-order pattern).")
 	c.Assume("a producer left blocked after a policy-A consumer stops early is not asserted (the property does not promise it)")
 	c.Assume("wall-clock watchdogs are inconclusive unless a goroutine dump shows the producer blocked in a channel send")
 
@@ -358,7 +396,7 @@ func runC18(c *core.Ctx) {
 					rep := map[string]any{"input_class": in.class, "input": clip(in.text, 3000), "file": in.file, "reader_fails_at": in.limit, "chunk": in.chunk, "policy": policy,
 						"gomaxprocs": procs, "jitter_pattern": pattern, "expected_trace": want, "observed_trace": trace, "verdict": verdict}
 					site := "ParseStream"
-					if in.file != "" {
+					if in.file != "" || in.fifo {
 						site = "ParseFile"
 					}
 					switch {
